@@ -47,7 +47,7 @@ class C04(Base):
         k = self.n(tier, 1, 10)
         lines = scen.fee_grid(r.fork(1), 300 * k) + scen.fee_lists(r.fork(2), 400 * k)
         return [Stream("S1-fee-arithmetic", lines, fields={"pure": ["_"]}, oracle=c04_oracle),
-                Stream("S3-fee-action-end-to-end", c04_e2e_lines(r.fork(3), 150 * k), fields={"recv": ["ack", "bal"]}, oracle=c04_e2e_oracle),
+                Stream("S3-fee-action-end-to-end", c04_e2e_lines(r.fork(3), 150 * k), fields={"recv": ["ack", "bal", "mv"]}, oracle=c04_e2e_oracle),
                 Stream("S2-fee-controller-component", c04_comp_lines(r.fork(4), 300 * k), fields={"acth": ["res", "dst", "bal"]}, oracle=c04_comp_oracle)]
 
 
@@ -531,7 +531,9 @@ def history_stream(name, seed_tag, tier, seed, n_quick, n_thorough, fields, orac
 def c01_targeted(r):
     """receiver grid x routes x prior deposits x pause states."""
     lines, toks = scen.base_setup()
-    recvs = [ORB, ORB.upper(), ORB[:8] + ORB[8:].upper(), "cosmos" + ORB[5:], b32(DUST_BYTES), U[0], b32(bytes(20)), ORB + " ", "", "garbage"]
+    import bech32 as _b32
+    recvs = [ORB, ORB.upper(), ORB[:8] + ORB[8:].upper(), "cosmos" + ORB[5:], b32(DUST_BYTES), U[0], b32(bytes(20)), ORB + " ", "", "garbage",
+             _b32.encode("cosmos", ORB_BYTES), _b32.encode("nobl", ORB_BYTES)]
     tok = toks[0][0]
     routes = [cctp_fwd(domain=0), int_fwd(U[1]), int_fwd(ORB), int_fwd(ORB.upper()), hyp_fwd(tok, domain=1), int_fwd(b32(DUST_BYTES)),
               cctp_fwd(domain=0, mint=b"\x00" * 32), cctp_fwd(domain=9)]
@@ -573,7 +575,7 @@ class C01(Base):
                    "bank / ICS-20 / bridge contracts of DESIGN.md §3.6"]
 
     def streams(self, tier, seed):
-        f = {"recv": ["ack", "bal"], "recvh": ["ack", "bal"]}
+        f = {"recv": ["ack", "bal", "mv"], "recvh": ["ack", "bal"]}
         _, toks = scen.base_setup()
         sts = [Stream("S3-receiver-grid", c01_targeted(Rng(seed * 1000 + 1)), fields=f, oracle=c01_oracle),
                Stream("S3-bridge-refusals", c03_natural_lines(Rng(seed), toks), fields=f, oracle=c01_oracle)]
@@ -681,6 +683,15 @@ def model_branch_lines(toks):
         "query Params",
         orb_pkt("recv", 10 ** 6, int_fwd(U[1]), ok_fee),                                                 # control
     ]
+    # a chain started from a genesis whose totals sit at the limits of their types: the statistics update overflows
+    # (amounts: 256 bits, counts: 64 bits); the transfer must still be acknowledged, never abort
+    big = 2 ** 256 - 1
+    g = "pp=[];pcc=[];pa=[];params=0;amts=[1|%s|4|%s|%s|%d|%d,1|%s|2|30|%s|%d|7];cnts=[1|%s|4|%s|%d,1|%s|2|30|5]" % (
+        hx("channel-0"), hx("noble"), hx("uusdc"), big, big - 5, hx("channel-0"), hx("uusdc"), big - 999, hx("channel-0"), hx("noble"), 2 ** 64 - 1, hx("channel-0"))
+    lines += ["genload " + g,
+              orb_pkt("recv", 1000, int_fwd(U[1])), orb_pkt("recv", 1000, int_fwd(U[1]), ok_fee), orb_pkt("recv", 6, int_fwd(U[1])),
+              orb_pkt("recv", 999, cctp_fwd(domain=0)), orb_pkt("recv", 1000, cctp_fwd(domain=0)),
+              orb_pkt("recv", 1000, int_fwd(U[1]), dst_chan="channel-1"), "export"]
     return lines
 
 @prop
@@ -699,7 +710,7 @@ class C14(Base):
         s3 = lines + c14_packets(r.fork(4), toks, per)
         return [Stream("S1-parser-mutations", s1, fields={"pure": ["_"]}, oracle=c14_oracle),
                 Stream("S3-malformed-packets", s3, fields={"recv": ["ack", "src"]}, oracle=c14_oracle),
-                Stream("S3-model-branches", model_branch_lines(toks), fields={"recv": ["ack", "src", "bal", "st"], "query": ["res", "out"]}, oracle=c14_oracle)]
+                Stream("S3-model-branches", model_branch_lines(toks), fields={"recv": ["ack", "src", "bal", "mv", "st"], "query": ["res", "out"], "genload": ["res", "st"], "export": ["st"]}, oracle=c14_oracle)]
 
 
 # ----------------------------------------------------------------------------------------------- C02
@@ -801,7 +812,7 @@ class C02(Base):
     assumptions = C01.assumptions + ["the Hyperlane mailbox uses a no-op post-dispatch hook (a charging hook is reported under C11)"]
 
     def streams(self, tier, seed):
-        f = {"recv": ["ack", "bal", "sup"], "recvh": ["ack", "bal", "sup"]}
+        f = {"recv": ["ack", "bal", "sup", "mv"], "recvh": ["ack", "bal", "sup"]}
         _, toks = scen.base_setup()
         return history_stream("S3-ledger", 2, tier, seed, 200, 700, f, c02_oracle, p_admin=6, p_deposit=10, p_query=0, p_reimport=0) + \
             [Stream("S3-bridge-refusals", c03_natural_lines(Rng(seed), toks), fields=f, oracle=lambda st: c02_oracle(st) + c01_oracle(st))]
@@ -893,7 +904,7 @@ class C03(Base):
     def streams(self, tier, seed):
         r = Rng(seed * 1000 + 3)
         _, toks = scen.base_setup()
-        f = {"recvh": ["ack", "bal", "sup", "st", "calls"], "recv": ["ack", "bal", "sup", "st"]}
+        f = {"recvh": ["ack", "bal", "sup", "st", "calls"], "recv": ["ack", "bal", "sup", "mv", "st"]}
         return [Stream("S2-fault-enumeration", c03_fault_lines(r, toks, pairs=(tier == "thorough")), fields=f, oracle=c03_oracle),
                 Stream("S3-natural-failures", c03_natural_lines(r, toks), fields=f, oracle=c03_oracle)]
 
@@ -1173,7 +1184,9 @@ class C06(Base):
 def c07_lines(r, n):
     lines, toks = scen.base_setup()
     goodmemo = memo(int_fwd(U[1]), [fee_action([(U[2], "b", 100)])])
-    recvs = [U[0], U[1], b32(DUST_BYTES), "", "garbage", "cosmos" + ORB[5:], ORB + "x", b32(bytes(20)), b32(bytes(32))]
+    import bech32 as _b32
+    foreign = [_b32.encode("cosmos", ORB_BYTES), _b32.encode("osmo", ORB_BYTES), _b32.encode("noblevaloper", ORB_BYTES), _b32.encode("nobl", ORB_BYTES)]
+    recvs = [U[0], U[1], b32(DUST_BYTES), "", "garbage", "cosmos" + ORB[5:], ORB + "x", b32(bytes(20)), b32(bytes(32))] + foreign
     denoms = ["transfer/channel-7/uusdc", "transfer/channel-7/uother", "uatom", "transfer/channel-3/uatom", "transfer/channel-7/transfer/channel-3/uatom", "transfer/channel-7/x", "ibc/ABC", ""]
     memos = ["", goodmemo, "{}", "hello", "{\"orbiter\":{}}", "{\"forward\":{\"receiver\":\"x\"}}"]
     for rc in recvs:
@@ -1189,7 +1202,7 @@ def c07_lines(r, n):
     # orbiter address: whatever the transfer application does not accept as ICS-20 data is not an orbiter packet either
     # a balance on the module account makes a wrongly started orbiter flow visible (it is swept before the transfer application runs)
     lines.append("deposit %s %s %d" % (hx(ORB_BYTES), hx("uusdc"), 777))
-    for rc, mm in ((U[0], ""), (ORB, goodmemo), (ORB, ""), (ORB, "hello"), (ORB, "{\"orbiter\":{}}")):
+    for rc, mm in ((U[0], ""), (ORB, goodmemo), (ORB, ""), (ORB, "hello"), (ORB, "{\"orbiter\":{}}"), (foreign[0], goodmemo), (foreign[0], "")):
         doc = {"denom": "transfer/channel-7/uusdc", "amount": "5", "sender": b32(addr(200)), "receiver": rc, "memo": mm}
         for m in scen.mutations(doc, r, 80 if mm in ("", goodmemo) else 20):
             lines.append(pkt_line("withoutmw", m))
@@ -1459,6 +1472,9 @@ def pause_history(r, n, toks, actions_focus=False):
                 lines.append(msg_line(r.choice(["PauseCrossChains", "UnpauseCrossChains"]), signer, hx(p), *[hx(x) for x in ids]))
             else:
                 lines.append(msg_line(r.choice(["PauseAction", "UnpauseAction"]), signer, hx(r.choice(ACTION_NAMES + ["ACTION_UNSUPPORTED", "y"] if r.chance(1, 8) else ACTION_NAMES))))
+            if r.chance(1, 8):
+                # the same message on a branch that is dropped (simulation, or a later message of the transaction failed)
+                lines[-1] = "msgdry" + lines[-1][3:]
         elif k < 60:
             q = r.below(7)
             if q == 0:
@@ -1498,7 +1514,7 @@ class C08(Base):
 
     def streams(self, tier, seed):
         out = []
-        f = {"msg": ["res", "st"], "recv": ["ack"], "recvh": ["ack"], "query": ["res", "out", "next", "total"]}
+        f = {"msg": ["res", "st"], "msgdry": ["res", "st"], "recv": ["ack"], "recvh": ["ack"], "query": ["res", "out", "next", "total"]}
         for h in range(self.n(tier, 3, 12)):
             r = Rng(seed * 100000 + 800 + h)
             lines, toks = scen.base_setup()
@@ -1517,7 +1533,7 @@ class C09(Base):
 
     def streams(self, tier, seed):
         out = []
-        f = {"msg": ["res", "st"], "recv": ["ack", "bal"], "recvh": ["ack", "bal"], "query": ["res", "out"]}
+        f = {"msg": ["res", "st"], "msgdry": ["res", "st"], "recv": ["ack", "bal"], "recvh": ["ack", "bal"], "query": ["res", "out"]}
         for h in range(self.n(tier, 3, 12)):
             r = Rng(seed * 100000 + 900 + h)
             lines, toks = scen.base_setup()
@@ -1887,7 +1903,7 @@ class C16(Base):
 
     def streams(self, tier, seed):
         r = Rng(seed * 1000 + 16)
-        f = {"pure": ["_"], "recv": ["ack", "bal"], "recvh": ["ack", "bal", "hreq", "st"]}
+        f = {"pure": ["_"], "recv": ["ack", "bal", "mv"], "recvh": ["ack", "bal", "hreq", "st"]}
         return [Stream("S1+S3-denominations-beside-ICS20", c16_lines(r, self.n(tier, 200, 2000)), fields=f, oracle=c16_oracle)]
 
 
@@ -1915,9 +1931,23 @@ def c18_lines(r, n):
             lines.append("deposit %s %s 3" % (hx(ORB_BYTES), hx("uusdc")))
             lines.append(orb_pkt("recv", 1000, cctp_fwd(domain=0, passthrough=b"\xee" * (v + 1))))
             lines.append(orb_pkt("recv", 1000, cctp_fwd(domain=0, passthrough=b"\xee" * v)))
+    # an update executed on a branch that is dropped (simulation, or a later message of the same transaction failed)
+    # sets nothing: the limit in force stays the committed one, whichever way the dropped value differs
+    for (committed, dropped) in [(16, 64), (64, 16), (0, 17), (17, 0)]:
+        lines.append(msg_line("UpdateParams", AUTHORITY, str(committed)))
+        lines.append("msgdry" + msg_line("UpdateParams", AUTHORITY, str(dropped))[3:])
+        lines.append("query Params")
+        lines += probes(committed)
+        lines += probes(dropped)
     for _ in range(n):
         v = r.choice(limit_values)
         signer = AUTHORITY if r.chance(4, 5) else U[0]
+        if r.chance(1, 6):
+            w = r.choice(limit_values)
+            lines.append("msgdry" + msg_line("UpdateParams", signer, str(w))[3:])
+            lines.append("query Params")
+            lines += probes(w)
+            continue
         lines.append(msg_line("UpdateParams", signer, str(v)))
         lines.append("query Params")
         cur = v if signer == AUTHORITY else None
@@ -1968,7 +1998,7 @@ class C18(Base):
 
     def streams(self, tier, seed):
         r = Rng(seed * 1000 + 18)
-        f = {"recv": ["ack", "bal"], "msg": ["res", "st"], "query": ["res", "out"], "reimport": ["valid", "init", "same", "st"]}
+        f = {"recv": ["ack", "bal"], "msg": ["res", "st"], "msgdry": ["res", "st"], "query": ["res", "out"], "reimport": ["valid", "init", "same", "st"]}
         return [Stream("S3-parameter-history", c18_lines(r, self.n(tier, 25, 250)), fields=f, oracle=c18_oracle)]
 
 
@@ -2318,6 +2348,15 @@ class C15(Base):
         _, toks = scen.base_setup()
         per = 600 if tier == "thorough" else 120
         s1 = scen.parse_lines_for(scen.payload_shapes(toks), r.fork(1), per) + ["pure parse " + hx(m) for m in scen.EXTRA_MEMOS]
+        # every sequence of action identifiers up to length 4 (symbolic and numeric spellings): repeats at any distance
+        import itertools
+        fa = fee_action([(U[0], "b", 10)])["attributes"]
+        for n in range(1, 5):
+            for ids in itertools.product(["ACTION_FEE", "ACTION_SWAP", 1, 2], repeat=n):
+                if n == 4 and r.chance(1, 2):
+                    continue
+                acts = [{"id": i, "attributes": fa} for i in ids]
+                s1.append("pure parse " + hx(_json.dumps({"orbiter": {"forwarding": int_fwd(U[1]), "pre_actions": acts}}, separators=(",", ":"))))
         rt, expect = c15_roundtrip_build(r.fork(2), self.n(tier, 120, 1200), toks)
         pl, groups = c15_purity_lines(r.fork(3), toks, 16)
         f = {"pure": ["_"]}
@@ -2503,6 +2542,10 @@ def c19_lines(r, n, toks):
     errs.append(orb_pkt("recv", 1000, int_fwd(U[1]), [fee_action([(U[2], "a", 1000)])]))
     errs.append(orb_pkt("recv", 1000, int_fwd(U[1]), [fee_action([(U[2], "a", 5000)])]))
     errs.append(orb_pkt("recv", 1000, int_fwd(U[1]), [fee_action([(ORB, "a", 5)])]))
+    # fee lists in which recipients repeat, in several arrangements: the payments and their bank events keep the list's order
+    for arr in ([0, 1, 2, 3, 0], [0, 1, 0, 2, 3], [3, 2, 1, 0, 3], [1, 1, 2, 3, 4], [0, 1, 2, 0, 1], [2, 0, 2, 1, 2], [0, 1, 0], [4, 3, 4, 2]):
+        for fwd in (int_fwd(U[1]), cctp_fwd(domain=0)):
+            errs.append(orb_pkt("recv", 10 ** 6, fwd, [fee_action([(U[i], r.choice("ab"), 10 + 7 * j) for j, i in enumerate(arr)])]))
     both = "{\"orbiter\":{\"pre_actions\":[{\"id\":\"ACTION_FEE\",\"attributes\":{\"@type\":\"" + scen.FEE_URL + "\",\"fees_info\":[{\"recipient\":\"" + U[0] + "\",\"basis_points\":{\"value\":100},\"amount\":{\"value\":\"7\"}}]}}],\"forwarding\":" + _json.dumps(int_fwd(U[1])) + "}}"
     out = lines
     errs = r.shuffle(errs)
@@ -2583,5 +2626,5 @@ class C19(Base):
             lines = c19_lines(r.fork(h), self.n(tier, 150, 500), toks)
             out.append(Stream("S4-replays-in-fresh-processes-%d" % h, lines, model=False, oracle=c19_make_oracle(lines, self.n(tier, 3, 10)), shrink=False,
                               note="%d processes" % self.n(tier, 3, 10)))
-            out.append(Stream("S3-model-agreement-%d" % h, lines[:-6], fields={"recv": ["ack", "src", "bal", "st"], "msg": ["res", "st"], "query": ["res", "out"], "export": ["st"]}))
+            out.append(Stream("S3-model-agreement-%d" % h, lines[:-6], fields={"recv": ["ack", "src", "bal", "mv", "st"], "msg": ["res", "st"], "query": ["res", "out"], "export": ["st"]}))
         return out
